@@ -3,13 +3,17 @@ LEAN_MODULES = ["Sif.Props.C08"]
 EXTRACT = [{"group": "auth", "passes": ["auth"]}]
 FAMILIES = [
     {"name": "auth", "family": "auth", "group": "auth", "driver": "drv_auth", "n_quick": 12000, "n_thorough": 120000, "seeds_thorough": 4},
+    {"name": "authtx", "family": "authtx", "group": "auth", "driver": "drv_auth", "n_quick": 2500, "n_thorough": 10000, "seeds_thorough": 3},
 ]
 CHK_PREDS = ["c08."]
-RULE = ("auth: the real msg servers (x/admin, tokenregistry, clp, margin, ethbridge) on a cached context per message, written back only on success. "
+RULE = ("auth (L1): the real handlers obtained from the app's MsgServiceRouter (x/admin, tokenregistry, clp, margin, ethbridge) on a cached context per message, written back only on success. "
         "Phase 1: all 28 non-table-changing privileged handlers x 14 signers (one per admin role, one with two roles, a second ADMIN, the oracle admin, "
         "two clp-whitelist members, three without any role). Phase 2: random AddAccount/RemoveAccount (role x account drawn from 6 x 14; signer mostly an ADMIN holder, "
         "1/6 anybody) each followed by six messages of random privileged handlers, three of them signed by the account just granted/revoked. Payloads valid. "
         "Every line also carries a hash over all key/value pairs of all 23 mounted IAVL/DB stores before and after the handler. "
+        "authtx (L2): the full app through BeginBlock/DeliverTx/EndBlock/Commit with signed zero-fee transactions, one per block: every privileged handler (29: MsgUpdateSwapFeeParams is "
+        "subject to the 0.1-rowan ante floor and left to L1) direct and wrapped in authz.MsgExec by its role holder and by a stranger, plus spoofed (msg.Signer = a role holder, "
+        "transaction signed by a stranger; directly and as MsgExec without grant); then the table evolving through AddAccount/RemoveAccount transactions. Hash over all stores but auth. "
         "non-trivial = distinct (handler, signer, payload) message line.")
 TRUSTED_BASE = [
     "Lean 4.33.0 kernel; axioms propext, Classical.choice, Quot.sound (audited per theorem on every run)",
@@ -30,6 +34,7 @@ UNPROVED = [
     "exercised by the matrix (result class + whole-multistore hash), not proved from Go semantics",
     "bodies of the handlers after the guard (what an authorised message does) are not modelled here, except AddAccount/RemoveAccount on the role table",
     "ante-level effects of a refused transaction (fee deduction, sequence increment) are outside this property (excluded by its statement)",
+    "authz grants: a role holder who grants a MsgExec authorisation to another account delegates its role for that message type by design; not modelled, not exercised",
 ]
 MANIFEST = {
     "text": "Lean 4 theorems: guard_first_no_effect / refused_no_effect_delivered (any handler whose guard precedes every write cannot change state for a refused signer; over an "
